@@ -265,6 +265,9 @@ type inlineCase struct {
 	Spaces  []int    `json:"spaces"` // spaces[i] before token i (spaces[0] may be 0), last = trailing
 	Chunks  []int    `json:"chunks"`
 	BufSize int      `json:"buf_size"`
+	// More: further inline commands (tokens separated by one space) on the same connection. Every decoded request is kept
+	// until the last one has been decoded and only then compared - a session holds its requests until they are answered.
+	More [][][]byte `json:"more,omitempty"`
 }
 
 func inlineLine(c inlineCase) []byte {
@@ -291,6 +294,19 @@ func checkInline(c inlineCase) (v *verdict) {
 	want := ref.ArrV(arr...)
 	// inline form followed by the array form on the same stream: both decode to the same request
 	stream := append(append([]byte{}, line...), ref.Enc(want)...)
+	var moreWant []ref.Value
+	for _, toks := range c.More {
+		vs := make([]ref.Value, len(toks))
+		for i, tk := range toks {
+			if i > 0 {
+				stream = append(stream, ' ')
+			}
+			stream = append(stream, tk...)
+			vs[i] = ref.BulkV(tk)
+		}
+		stream = append(stream, '\r', '\n')
+		moreWant = append(moreWant, ref.ArrV(vs...))
+	}
 	dec := sut.VerifNewDecoder(&gen.ChunkReader{Data: stream, Chunks: c.Chunks}, c.BufSize)
 	g1, err := dec.Decode()
 	if err != nil {
@@ -300,9 +316,23 @@ func checkInline(c inlineCase) (v *verdict) {
 	if err != nil {
 		return &verdict{"array-after-inline-error", fmt.Sprintf("array form after inline %q: %v", clip(line), err)}
 	}
+	var gm []*sut.RespValue
+	for i := range c.More {
+		g, err := dec.Decode()
+		if err != nil {
+			return &verdict{"inline-error", fmt.Sprintf("inline command %d after %q: %v", i+2, clip(line), err)}
+		}
+		gm = append(gm, g)
+	}
+	// everything has been decoded: only now are the requests looked at
 	v1, v2 := gen.FromSUT(g1), gen.FromSUT(g2)
 	if !ref.Equal(v1, want) || !ref.Equal(v2, want) {
-		return &verdict{"inline-mismatch", fmt.Sprintf("inline %q decoded to %s, array form to %s, want %s", clip(line), v1, v2, want)}
+		return &verdict{"inline-mismatch", fmt.Sprintf("inline %q decoded to %s, array form to %s, want %s (looked at after %d further inline commands were decoded on the same connection)", clip(line), v1, v2, want, len(c.More))}
+	}
+	for i, g := range gm {
+		if v := gen.FromSUT(g); !ref.Equal(v, moreWant[i]) {
+			return &verdict{"inline-mismatch", fmt.Sprintf("inline command %d of the connection decoded to %s, want %s (looked at after all %d were decoded)", i+2, v, moreWant[i], len(c.More)+1)}
+		}
 	}
 	if _, err := dec.Decode(); err != io.EOF {
 		return &verdict{"no-clean-eof", fmt.Sprintf("after inline+array: %v", err)}
@@ -335,6 +365,21 @@ func TestInline(t *testing.T) {
 		}
 		// leading spaces before the first token only when the first byte stays a non-type byte (space is fine)
 		c.Spaces = append(c.Spaces, rapid.IntRange(0, 2).Draw(t, "trail"))
+		if rapid.IntRange(0, 2).Draw(t, "more") == 0 {
+			for k, m := 0, rapid.IntRange(1, 5).Draw(t, "nmore"); k < m; k++ {
+				var toks [][]byte
+				for j, nt := 0, rapid.IntRange(1, 6).Draw(t, "mtoks"); j < nt; j++ {
+					tk := rapid.SliceOfN(tokByte, 1, 8).Draw(t, "mtok")
+					if j == 0 {
+						for tk[0] == '+' || tk[0] == '-' || tk[0] == ':' || tk[0] == '$' || tk[0] == '*' {
+							tk[0] = 'y'
+						}
+					}
+					toks = append(toks, tk)
+				}
+				c.More = append(c.More, toks)
+			}
+		}
 		line := inlineLine(c)
 		c.Chunks = gen.Chunks(t, "ch", append(append([]byte{}, line...), '*'))
 		if vd := checkInline(c); vd != nil {
